@@ -158,6 +158,26 @@ def env_schedule_traces(d: Path, episodes: int) -> List[Dict[str, Any]]:
     return out
 
 
+def env_door_traces(label: str, cfg: Dict[str, Any]) -> List[Dict[str, Any]]:
+    """The same declaration through the environment's door, after a reset (what an RL library trains on)."""
+    from primaite.session.environment import PrimaiteGymEnv
+
+    ecfg = copy.deepcopy(cfg)
+    if not ecfg.get("agents"):
+        ecfg["agents"] = [scenarios.proxy_agent({0: {"action": "do-nothing", "options": {}}})]
+    try:
+        env = PrimaiteGymEnv(env_config=copy.deepcopy(ecfg))
+        env.reset(seed=1)
+        etrs, _g = inventory_traces(label + "#after_env_reset", ecfg, "probe", game=env.game)
+        env.close()
+    except Exception as ex:  # noqa
+        etrs = [{"cfg": {"scenario": label + "#after_env_reset", "host": rc.NET, "type": "", "scope": "net"},
+                 "ev": [_ev("Raised", exc=type(ex).__name__)],
+                 "meta": {"scenario": label + "#after_env_reset", "exception": f"{type(ex).__name__}: {str(ex)[:300]}"},
+                 "stimulus": {"scenario": label, "origin": "probe"}}]
+    return etrs
+
+
 def pair_traces(label: str, cfg: Dict[str, Any], variants: List[str], steps: int, seed: int, origin: str,
                 notes: Dict[str, int], repeat_check: bool = True) -> List[Dict[str, Any]]:
     base = rc.run_trajectory(cfg, steps, seed)
@@ -492,6 +512,15 @@ def probes() -> List[Tuple[str, Dict[str, Any]]]:
                     n["operating_state"] = state
                     del n["start_up_duration"], n["shut_down_duration"]
             out.append((f"probe/operating_state_{kind}_{state}", cfg))
+    # rules declared at the positions where a router keeps its built-in rules (22: ARP, 23: ICMP), and at both ends of the list
+    c = base()
+    for n in c["simulation"]["network"]["nodes"]:
+        if n["hostname"] == "r":
+            n["acl"] = {0: {"action": "PERMIT", "protocol": "TCP"},
+                        1: {"action": "PERMIT"},
+                        22: {"action": "DENY", "protocol": "ICMP", "src_ip": "192.168.1.2", "src_wildcard_mask": "0.0.0.0"},
+                        23: {"action": "PERMIT", "protocol": "UDP", "src_port": "DNS", "dst_port": "DNS"}}
+    out.append(("probe/env/router_acl_at_default_positions", c))
     # the loader's `defaults:' block
     c = base()
     c["defaults"] = {"node_start_up_duration": 1, "node_shut_down_duration": 1}
@@ -813,25 +842,6 @@ def main(tier: str, seed: int) -> int:
         n_scen += 1
         traces += _restrict_node_set_traces(cfg, trs, notes)
         chk.add_case({"scenario": label})
-        if game is not None and label.startswith("probe/operating_state_"):
-            # the same declaration through the environment's door, after a reset (what an RL library trains on)
-            from primaite.session.environment import PrimaiteGymEnv
-
-            ecfg = copy.deepcopy(cfg)
-            if not ecfg.get("agents"):
-                ecfg["agents"] = [scenarios.proxy_agent({0: {"action": "do-nothing", "options": {}}})]
-            try:
-                env = PrimaiteGymEnv(env_config=copy.deepcopy(ecfg))
-                env.reset(seed=1)
-                etrs, _g = inventory_traces(label + "#after_env_reset", ecfg, "probe", game=env.game)
-                env.close()
-            except Exception as ex:  # noqa
-                etrs = [{"cfg": {"scenario": label + "#after_env_reset", "host": rc.NET, "type": "", "scope": "net"},
-                         "ev": [_ev("Raised", exc=type(ex).__name__)],
-                         "meta": {"scenario": label + "#after_env_reset", "exception": f"{type(ex).__name__}: {str(ex)[:300]}"},
-                         "stimulus": {"scenario": label, "origin": "probe"}}]
-            traces += etrs
-            chk.add_case({"scenario": label + "#after_env_reset"})
         if game is not None and "#episode" not in label and (thorough or _n_nodes(cfg) <= 15):
             # the same file with its node list and its link list written in the opposite order: the same network is declared
             rcfg = copy.deepcopy(cfg)
@@ -912,6 +922,10 @@ def main(tier: str, seed: int) -> int:
             t["stimulus"]["config_network"] = cfg.get("simulation", {}).get("network", {}).get("node_sets") or cfg.get("defaults")
         traces += _restrict_node_set_traces(cfg, trs, notes)
         chk.add_case({"probe": label})
+        if game is not None and label.startswith(("probe/operating_state_", "probe/env/")):
+            traces += env_door_traces(label, cfg)
+            chk.add_case({"probe": label + "#after_env_reset"})
+            notes["probes_also_inventoried_after_env_reset"] = notes.get("probes_also_inventoried_after_env_reset", 0) + 1
     stack.close()
     mark("generated")
     chk.cov["generated_members_validated"] = len(members)
